@@ -26,6 +26,7 @@ type Config struct {
 	RepoPrefix  string // module path of the code under test
 	MapOrderAll bool   // range over maps explores all orders
 	InitFuncs   func(pkgPath string) bool // run init#N functions of these packages too
+	NoSummaries bool                      // run the real runtime.Sov/Soz instead of their verified summaries
 	CrossCmd    string                    // independent solver re-deciding unsat one-shot queries (thorough tier)
 }
 
@@ -314,7 +315,7 @@ func (e *Exec) resetPath() {
 	e.known = map[*Term]bool{}
 	e.lenBounds = map[*Term]int{}
 	e.stubNested = false
-	e.noSummaries = false
+	e.noSummaries = e.Cfg.NoSummaries
 	e.snaps = nil
 	e.pnotes = nil
 	e.skipIntrinsic = nil
